@@ -370,6 +370,8 @@ def next_job_batch():
         jobs = {job.tag: job for job in que}
         for job in filter(lambda j: j.get('todo'), que):
             available = job.get('todo').copy()
+            for target in job.get('doing'):
+                available.discard(target)
             for dep in jobs.keys() & job.get('ancestry'):
                 for target in job.get('todo'):
                     dependency = find(dep)
